@@ -11,7 +11,6 @@ discussion on why line wrapping this way is convenient.)
 
 from __future__ import annotations
 
-from textwrap import dedent
 
 from flowmark.formats.flowmark_markdown import ListSpacing, flowmark_markdown
 from flowmark.formats.frontmatter import split_frontmatter
@@ -31,6 +30,30 @@ from flowmark.typography.smartquotes import smart_quotes
 
 def split_sentences_no_min_length(text: str) -> list[str]:
     return split_sentences_regex(text, min_length=0)
+
+
+def _dedent(text: str) -> str:
+    """
+    Remove the common leading whitespace, like `textwrap.dedent()`, but without rewriting
+    whitespace-only lines to empty ones: inside a code block they are content.
+    """
+    lines = text.split("\n")
+    margin: str | None = None
+    for line in lines:
+        content = line.lstrip(" \t")
+        if not content:
+            continue
+        indent = line[: len(line) - len(content)]
+        if margin is None:
+            margin = indent
+        else:
+            common = 0
+            while common < min(len(margin), len(indent)) and margin[common] == indent[common]:
+                common += 1
+            margin = margin[:common]
+    if not margin:
+        return text
+    return "\n".join(line[len(margin) :] if line.startswith(margin) else line for line in lines)
 
 
 def fill_markdown(
@@ -83,7 +106,7 @@ def fill_markdown(
         markdown_text = content
 
     if dedent_input:
-        markdown_text = dedent(markdown_text).strip()
+        markdown_text = _dedent(markdown_text).strip()
 
     markdown_text = markdown_text.strip() + "\n"
 
